@@ -1004,19 +1004,18 @@ FP_GROUPS = {
 }
 
 
-# functions whose BODIES are translated to Lean by translate_fn.py and proved equal to the model (Proofs/AgreeFn*.lean):
-# they are tied semantically, so their source text is not fingerprinted (a semantics-preserving rewrite of one of them
-# keeps checking; a behavioural edit breaks the agreement theorem). (file, fn name): every `fn` item of that name in the file.
-TRANSLATED = {
-    ("tree/mod.rs", "eval_with_context"), ("tree/mod.rs", "eval_with_context_mut"), ("tree/mod.rs", "children"), ("tree/mod.rs", "operator"),
-    ("operator/mod.rs", "eval"), ("operator/mod.rs", "eval_mut"),
-    ("error/mod.rs", "expect_operator_argument_amount"), ("error/mod.rs", "expect_number_or_string"), ("error/mod.rs", "wrong_operator_argument_amount"),
-    ("value/mod.rs", "as_string"), ("value/mod.rs", "as_int"), ("value/mod.rs", "as_float"), ("value/mod.rs", "as_number"), ("value/mod.rs", "as_boolean"),
-    ("value/mod.rs", "as_tuple"), ("value/mod.rs", "as_fixed_len_tuple"), ("value/mod.rs", "as_empty"),
-    ("context/mod.rs", "get_value"), ("context/mod.rs", "call_function"), ("context/mod.rs", "are_builtin_functions_disabled"),
-    ("context/mod.rs", "set_builtin_functions_disabled"), ("context/mod.rs", "clear_variables"),  # (set_function: the trait default is not translated)
-    ("context/mod.rs", "clear_functions"), ("context/mod.rs", "clear"),
-}
+# functions whose BODIES are translated to Lean by translate_fn.py and proved equal to the model (Proofs/AgreeFn*.lean)
+# are tied semantically, so their source text is not fingerprinted: a semantics-preserving rewrite of one of them keeps
+# checking, a behavioural edit breaks a named agreement theorem.
+def translated_fn_sites():
+    """{(file, line of the `fn` token)} of every fn item translate_fn.py translates on this run (empty if it fails:
+    then every function is fingerprinted again and the run is broken anyway)"""
+    import translate_fn
+    try:
+        w, _ = translate_fn.run()
+    except Exception:  # noqa: BLE001
+        return set()
+    return {(g.item.file, g.item.line) for g in w.order}
 
 
 def all_fn_names(toks):
@@ -1033,6 +1032,7 @@ def fingerprints():
     the hand-written model was validated against exactly this text"""
     import hashlib
     res = []
+    translated = translated_fn_sites()
     for group, parts in FP_GROUPS.items():
         def go(parts=parts):
             rows = []
@@ -1045,12 +1045,12 @@ def fingerprints():
                     continue
                 _ = raw
                 for name in (names or all_fn_names(toks)):
-                    if (rel, name) in TRANSLATED:
-                        continue
                     fns = find_fns(toks, name)
                     if not fns:
                         raise Unrecognised(f"{rel}: fn {name} not found")
                     for k, (sig, body) in enumerate(fns):
+                        if (rel, sig[0].line) in translated:
+                            continue
                         h = hashlib.sha256((text_of(sig) + " { " + text_of(body) + " }").encode()).hexdigest()[:32]
                         rows.append((f"{rel}::{name}" + (f"#{k}" if len(fns) > 1 else ""), h))
             body = ",\n".join(f"  0x{b}  /- {a} -/" for a, b in rows)
